@@ -23,6 +23,9 @@ CONSTANTS
   BugSkipInval = FALSE
   Dedicated = FALSE
   BugNoTrackingOff = FALSE
+  CacheChoices = {TRUE}
+  BugLossNilNeedsCache = FALSE
+  BugUnsubWrongSub = FALSE
 VIEW GenView
 INVARIANTS TypeOK PrintScript
 CHECK_DEADLOCK FALSE
